@@ -88,11 +88,53 @@ func DivNZ(op string, a, b *Term) *Term {
 
 var divisorNonZero bool
 
+// constLeaves counts the leaves of an ite tree whose leaves are all constants (0 if t is not such a tree or too big).
+func constLeaves(t *Term) int {
+	if t.IsConst() {
+		return 1
+	}
+	if t.Op != "ite" {
+		return 0
+	}
+	if n, ok := leafMemo[t.id]; ok {
+		return n
+	}
+	l, r := constLeaves(t.Args[1]), constLeaves(t.Args[2])
+	n := 0
+	if l > 0 && r > 0 && l+r <= 16 {
+		n = l + r
+	}
+	leafMemo[t.id] = n
+	return n
+}
+
+var leafMemo = map[int]int{}
+
+// liftIte applies f to the leaves of a constant-leaf ite tree.
+func liftIte(t *Term, f func(*Term) *Term) *Term {
+	if t.IsConst() {
+		return f(t)
+	}
+	return Ite(t.Args[0], liftIte(t.Args[1], f), liftIte(t.Args[2], f))
+}
+
 func BinBV(op string, a, b *Term) *Term {
 	if a.W != b.W {
 		panic(fmt.Sprintf("width mismatch %s %d %d", op, a.W, b.W))
 	}
 	w := a.W
+	if !a.IsConst() || !b.IsConst() {
+		la, lb := constLeaves(a), constLeaves(b)
+		if la > 1 && b.IsConst() {
+			return liftIte(a, func(x *Term) *Term { return BinBV(op, x, b) })
+		}
+		if lb > 1 && a.IsConst() {
+			return liftIte(b, func(y *Term) *Term { return BinBV(op, a, y) })
+		}
+		if la > 1 && lb > 1 && la*lb <= 16 {
+			return liftIte(a, func(x *Term) *Term { return liftIte(b, func(y *Term) *Term { return BinBV(op, x, y) }) })
+		}
+	}
 	if a.IsConst() && b.IsConst() {
 		x, y := a.C, b.C
 		r := new(big.Int)
@@ -168,6 +210,40 @@ func BinBV(op string, a, b *Term) *Term {
 			return ZExt(Extract(a, k-1, 0), w)
 		}
 		return BinBV("bvlshr", a, BVu(uint64(k), w))
+	}
+	if op == "bvurem" && b.IsConst() && b.C.Sign() > 0 {
+		// x % c with x < 4c: a chain of conditional subtractions instead of a divider
+		ha := hiBound(a)
+		if ha.Cmp(b.C) < 0 {
+			return a
+		}
+		if q := new(big.Int).Div(ha, b.C); q.IsInt64() && q.Int64() <= 3 {
+			r := a
+			for k := q.Int64(); k >= 1; k-- {
+				kc := BV(new(big.Int).Mul(b.C, big.NewInt(k)), w)
+				r = Ite(Cmp("bvule", kc, a), BinBV("bvsub", a, kc), r)
+				if k == q.Int64() {
+					r = Ite(Cmp("bvule", kc, a), BinBV("bvsub", a, kc), a)
+				}
+			}
+			// build properly: nested from the largest multiple down
+			r = a
+			for k := int64(1); k <= q.Int64(); k++ {
+				kc := BV(new(big.Int).Mul(b.C, big.NewInt(k)), w)
+				r = Ite(Cmp("bvule", kc, a), BinBV("bvsub", a, kc), r)
+			}
+			return r
+		}
+	}
+	if op == "bvlshr" && b.IsConst() && b.C.IsInt64() && int(b.C.Int64()) >= hiBound(a).BitLen() {
+		return BVu(0, w)
+	}
+	if op == "bvand" && b.IsConst() {
+		// x & (2^k-1) with x < 2^k
+		m := new(big.Int).Add(b.C, big.NewInt(1))
+		if m.Sign() > 0 && new(big.Int).And(m, b.C).Sign() == 0 && hiBound(a).Cmp(b.C) <= 0 {
+			return a
+		}
 	}
 	if (op == "bvudiv" || op == "bvurem") && w > 8 {
 		ha, hb := hiBound(a), hiBound(b)
@@ -264,6 +340,11 @@ func hiBound(t *Term) *big.Int {
 		if t.Args[1].IsConst() && t.Args[1].C.IsUint64() && t.Args[1].C.Uint64() < uint64(t.W) {
 			h = min(m, new(big.Int).Lsh(hiBound(t.Args[0]), uint(t.Args[1].C.Uint64())))
 		}
+	case "uf":
+		if strings.HasPrefix(t.Name, "uremabs_") {
+			c, _ := new(big.Int).SetString(t.Name[len("uremabs_"):], 10)
+			h = new(big.Int).Sub(c, big.NewInt(1))
+		}
 	case "zext":
 		h = hiBound(t.Args[0])
 	case "extract":
@@ -282,7 +363,10 @@ func hiBound(t *Term) *big.Int {
 			h = s
 		}
 	case "bvsub":
-		// a - b <= a if no underflow known: only when b const 0
+		// c - x with x <= c never wraps and is at most c
+		if t.Args[0].IsConst() && hiBound(t.Args[1]).Cmp(t.Args[0].C) <= 0 {
+			h = t.Args[0].C
+		}
 	case "ite":
 		a, b := hiBound(t.Args[1]), hiBound(t.Args[2])
 		h = a
@@ -304,6 +388,18 @@ func Cmp(op string, a, b *Term) *Term { // "=", bvult, bvule, bvslt, bvsle
 			return Bool(true)
 		default:
 			return Bool(false)
+		}
+	}
+	if a.W > 0 && (!a.IsConst() || !b.IsConst()) {
+		la, lb := constLeaves(a), constLeaves(b)
+		if la > 1 && b.IsConst() {
+			return liftBool(a, func(x *Term) *Term { return Cmp(op, x, b) })
+		}
+		if lb > 1 && a.IsConst() {
+			return liftBool(b, func(y *Term) *Term { return Cmp(op, a, y) })
+		}
+		if la > 1 && lb > 1 && la*lb <= 16 {
+			return liftBool(a, func(x *Term) *Term { return liftBool(b, func(y *Term) *Term { return Cmp(op, x, y) }) })
 		}
 	}
 	if a.IsConst() && b.IsConst() {
@@ -347,7 +443,18 @@ func Cmp(op string, a, b *Term) *Term { // "=", bvult, bvule, bvslt, bvsle
 			}
 		}
 	}
+	if op == "=" && a.id > b.id {
+		a, b = b, a // canonical argument order
+	}
 	return mk(&Term{Op: op, W: 0, Args: []*Term{a, b}})
+}
+
+// liftBool applies a predicate to the leaves of a constant-leaf ite tree.
+func liftBool(t *Term, f func(*Term) *Term) *Term {
+	if t.IsConst() {
+		return f(t)
+	}
+	return Ite(t.Args[0], liftBool(t.Args[1], f), liftBool(t.Args[2], f))
 }
 
 func Not(a *Term) *Term {
@@ -418,6 +525,9 @@ func Extract(a *Term, hi, lo int) *Term {
 		r := new(big.Int).Rsh(a.C, uint(lo))
 		return BV(r, hi-lo+1)
 	}
+	if constLeaves(a) > 1 {
+		return liftIte(a, func(x *Term) *Term { return Extract(x, hi, lo) })
+	}
 	if a.Op == "concat" {
 		// args[0] is high part
 		hiPart, loPart := a.Args[0], a.Args[1]
@@ -454,6 +564,9 @@ func ZExt(a *Term, w int) *Term {
 	}
 	if a.IsConst() {
 		return BV(a.C, w)
+	}
+	if constLeaves(a) > 1 {
+		return liftIte(a, func(x *Term) *Term { return ZExt(x, w) })
 	}
 	return mk(&Term{Op: "zext", W: w, Args: []*Term{a}})
 }
@@ -691,4 +804,53 @@ func (s *Solver) Close() {
 	s.in.Close()
 	s.cmd.Process.Kill()
 	s.cmd.Wait()
+}
+
+var pureMemo = map[int]bool{}
+
+// pureHashBits reports whether t is nothing but bits of uninterpreted-hash outputs reassembled
+// (extract/concat/zext/or/shl of sha applications and constants), i.e. a value whose bits are unconstrained.
+func pureHashBits(t *Term) bool {
+	if t.IsConst() {
+		return true
+	}
+	if r, ok := pureMemo[t.id]; ok {
+		return r
+	}
+	r := false
+	switch t.Op {
+	case "uf":
+		r = strings.HasPrefix(t.Name, "sha")
+	case "extract", "concat", "zext", "bvor", "bvshl":
+		r = true
+		for _, a := range t.Args {
+			if !pureHashBits(a) {
+				r = false
+				break
+			}
+		}
+	}
+	pureMemo[t.id] = r
+	return r
+}
+
+var shaMemo = map[int]bool{}
+
+// hashDerived reports whether t contains an application of the uninterpreted hash.
+func hashDerived(t *Term) bool {
+	if t.IsConst() || t.Op == "var" {
+		return false
+	}
+	if r, ok := shaMemo[t.id]; ok {
+		return r
+	}
+	r := t.Op == "uf" && strings.HasPrefix(t.Name, "sha")
+	for _, a := range t.Args {
+		if r {
+			break
+		}
+		r = hashDerived(a)
+	}
+	shaMemo[t.id] = r
+	return r
 }
